@@ -3,6 +3,7 @@
 -/
 import SeataModel.TCC.Fence
 import SeataModel.TCC.FenceRace
+import SeataModel.TCC.FenceDriver
 import SeataModel.Lemmas.FenceRace
 namespace Seata.Props.C06
 open Seata.Fence
@@ -310,6 +311,59 @@ theorem C06_reachable_states (xs : List Delivery) (b : Nat) : Fence.get (run xs)
     end, the rollback's insert of the suspension meets the committed record (1062) and is refused -/
 example : Race.outcome .rollback .prepare {} [true, false, false, false, true, true, true, true] =
     ({ row := some .tried, tries := 1 }, some .refused, some .ok) := by decide
+
+/-! ### the fence driver path (TCC/FenceDriver.lean): business and fence transaction on two connections -/
+section driver
+open Seata.Fence.Driver
+
+/-- as long as neither commit fails, a delivery through the driver is a delivery through WithFence: record,
+    effects and answer are the same (this is what ties the cases fd-* to the model of WithFence) -/
+theorem C06_driver_is_fence_when_commits_succeed (p : Phase) (s : BranchSt) :
+    deliverDriver p .none s = deliver p none false s := by
+  unfold deliverDriver deliver
+  cases h : fenceStep p s.row <;> simp [fires]
+  cases hr : runsCallback p s.row <;> simp
+
+/-- a business commit that fails leaves nothing behind: the fence transaction is rolled back with it -/
+theorem C06_driver_business_commit_failure_changes_nothing (p : Phase) (s : BranchSt) :
+    (deliverDriver p .business s).1 = s ∨ runsCallback p s.row = false := by
+  unfold deliverDriver
+  cases h : fenceStep p s.row <;> simp
+  cases hr : runsCallback p s.row <;> simp
+
+/-- the invariant (the record says exactly which effects are durable) survives every delivery through the
+    driver in which the FENCE commit does not fail -/
+theorem C06_driver_inv_unless_fence_commit_fails (p : Phase) (cf : CommitFault) (s : BranchSt) (h : Inv s)
+    (hcf : cf ≠ .fence) : Inv (deliverDriver p cf s).1 := by
+  cases cf with
+  | none => rw [C06_driver_is_fence_when_commits_succeed]; exact deliver_inv p none false s h
+  | fence => exact absurd rfl hcf
+  | business =>
+    unfold deliverDriver
+    cases hf : fenceStep p s.row with
+    | refuse => simpa using h
+    | go r =>
+      cases hr : runsCallback p s.row with
+      | true => simpa [hr] using h
+      | false =>
+        have := deliver_inv p none false s h
+        unfold deliver at this
+        simpa [hf, hr, fires] using this
+
+/-- OPEN FINDING C06-fence-driver-commits-on-two-connections, as a machine-checked witness: when the fence commit
+    of a first try fails, the try is durable and there is no record (the invariant is broken, "record and effect
+    commit or roll back together" does not hold on this path) - and the delivery the coordinator repeats applies
+    the try a second time -/
+theorem C06_driver_fence_commit_failure_is_not_atomic :
+    deliverDriver .prepare .fence {} = ({ tries := 1 }, .refused) ∧
+    ¬ Inv (deliverDriver .prepare .fence {}).1 ∧
+    (deliverDriver .prepare .none (deliverDriver .prepare .fence {}).1).1.tries = 2 := by
+  refine ⟨by decide, ?_, by decide⟩
+  intro h
+  have := h.1 (by decide)
+  simp [deliverDriver, fenceStep, runsCallback, bump] at this
+
+end driver
 
 /-! Non-vacuity -/
 example : (Fence.get (run [{ branch := 2, phase := .rollback }, { branch := 2, phase := .prepare },
